@@ -273,15 +273,23 @@ struct Gen {
 			if(o.a < 0) continue;
 			// second operand / arguments
 			switch(o.kind) {
-			case O_CTOR_EXT: fill_exts(o, D); break;
-			case O_CTOR_EXT_ELEM: fill_exts(o, D); o.v = rval(); break;
+			case O_CTOR_EXT: case O_CTOR_EXT_ELEM: {
+				fill_exts(o, D);
+				if(o.kind == O_CTOR_EXT_ELEM) o.v = rval();
+				int const twin = alive_slot(D);
+				if(twin >= 0 && rng.chance(family == 8 ? 1 : 1, family == 8 ? 2 : 5))  // a twin: same extents as an existing array (possibly on another arena)
+					for(int k = 0; k < D; ++k) o.x[k] = M.at(D, twin).n[k];
+				break;
+			}
 			case O_CTOR_COPY: case O_CTOR_COPY_ALLOC: case O_CTOR_MOVE: case O_CTOR_MOVE_ALLOC: case O_ASSIGN_COPY: case O_ASSIGN_MOVE: case O_SWAP: {
 				o.b = alive_slot(D);
 				if(o.b < 0 || o.b == o.a) continue;
-				if(o.kind == O_ASSIGN_COPY && rng.chance(1, 3) && !T.static_arrays) {
-					// bias: make the extents equal first half of the time by choosing a same-extent source if one exists
+				if((o.kind == O_ASSIGN_COPY || o.kind == O_ASSIGN_MOVE || o.kind == O_SWAP) && rng.chance(1, 2)) {
+					// bias: a same-extent partner if one exists, preferring one on another arena
 					for(int i = 0; i < NSLOT; ++i)
 						if(i != o.a && M.at(D, i).alive && M.at(D, i).same_extents(M.at(D, o.a))) o.b = i;
+					for(int i = 0; i < NSLOT; ++i)
+						if(i != o.a && M.at(D, i).alive && M.at(D, i).same_extents(M.at(D, o.a)) && M.at(D, i).arena != M.at(D, o.a).arena && rng.chance(2, 3)) o.b = i;
 				}
 				break;
 			}
